@@ -595,6 +595,235 @@ Proof.
   intros C X Hc. destruct (closed_shown_from c ops C (kinit c) X (kinv_init c C) Hc) as [H|H]; [discriminate|exact H].
 Qed.
 
+(* ================= the dead-peer bound, assembled ================= *)
+(* keepalive is applicable: a stream is open or PermitWithoutStream is set *)
+Definition applicable (c : kcfg) (s : kst) : bool := kc_permit c || (1 <=? k_streams s).
+(* the moment keepalive last became applicable along a timeline (0 = from the start) *)
+Definition a_next (c : kcfg) (s s' : kst) (a : Z) : Z :=
+  if applicable c s' && negb (applicable c s) then k_now s' else a.
+Fixpoint appl_from (c : kcfg) (s : kst) (a : Z) (ops : list (Z * kop)) : Z :=
+  match ops with
+  | [] => a
+  | (x, o) :: r => let s' := fst (kstep c s x o) in appl_from c s' (a_next c s s' a) r
+  end.
+Definition appl_since (c : kcfg) (ops : list (Z * kop)) : Z := appl_from c (kinit c) 0 ops.
+
+(* a = the moment keepalive last became applicable.  While the loop runs: the timer is never
+   more than Time ahead; as long as no ping is outstanding (or a read is still to be noticed) it
+   is due no later than last read + Time; an outstanding ping was sent no later than
+   max(last read + Time, a); a closed transport was closed no later than that + Timeout; a
+   dormant loop means keepalive is not applicable *)
+Record dinv (c : kcfg) (s : kst) (a : Z) : Prop := {
+  d_last : k_last s <= k_now s;
+  d_ping : k_ping s <= k_now s;
+  d_a : a <= k_now s;
+  d_near : k_closed s = false -> k_dorm s = false -> k_timer s <= k_now s + kc_time c;
+  d_due : k_closed s = false -> k_dorm s = false -> (k_out s = false \/ k_prev s < k_last s) ->
+          k_timer s <= k_last s + kc_time c;
+  d_pinged : k_closed s = false -> k_dorm s = false -> k_out s = true -> k_last s <= k_prev s ->
+             k_ping s <= Z.max (k_last s + kc_time c) a;
+  d_closed : k_closed s = true -> k_timer s <= Z.max (k_last s + kc_time c) a + kc_timeout c;
+  d_closed_now : k_closed s = true -> k_timer s <= k_now s;
+  d_dorm : k_dorm s = true -> applicable c s = false }.
+
+Ltac dsolve :=
+  constructor; cbn; intros; try discriminate;
+  repeat match goal with H : _ \/ _ |- _ => destruct H; try discriminate end; try lia.
+
+Lemma dinv_init c : cfg_ok c -> dinv c (kinit c) 0.
+Proof. intros [A B]. dsolve. Qed.
+
+Lemma dinv_mono c s a a' : a <= a' -> a' <= k_now s -> dinv c s a -> dinv c s a'.
+Proof. intros H H' [D1 D2 Da D3 D4 D5 D6 D6n D7]. constructor; auto; intros; [specialize (D5 H0 H1 H2 H3)|specialize (D6 H0)]; lia. Qed.
+
+Lemma fire_dinv c s a : cfg_ok c -> kinv c s -> dinv c s a -> k_closed s = false -> k_dorm s = false ->
+  dinv c (fst (fire c s)) a.
+Proof.
+  intros [Ct Co] I D Cl Dm. unfold fire.
+  pose proof (i_timer _ _ I Cl Dm) as [T1 T2]. pose proof (i_left _ _ I) as L.
+  destruct D as [D1 D2 Da D3 D4 D5 D6 D6n D7]. specialize (D3 Cl Dm). specialize (D4 Cl Dm). specialize (D5 Cl Dm).
+  destruct (Z.ltb_spec (k_prev s) (k_last s)) as [H|H].
+  - assert (k_timer s <= k_last s + kc_time c) by (apply D4; right; exact H). dsolve.
+  - destruct (k_out s && (k_left s <=? 0)) eqn:E.
+    + apply andb_true_iff in E as [O E]. apply Z.leb_le in E. destruct (i_out _ _ I O) as [P1 P2].
+      specialize (D5 O H). dsolve.
+    + destruct ((k_streams s <? 1) && negb (kc_permit c)) eqn:A.
+      * apply andb_true_iff in A as [A1 A2]. apply Z.ltb_lt in A1. apply negb_true_iff in A2.
+        dsolve. unfold applicable. cbn. rewrite A2. destruct (Z.leb_spec 1 (k_streams s)); [lia|reflexivity].
+      * unfold ping_and_sleep. destruct (k_out s) eqn:O; cbn [negb andb].
+        -- specialize (D5 eq_refl H). dsolve.
+        -- assert (k_timer s <= k_last s + kc_time c) by (apply D4; left; reflexivity).
+           destruct (k_ack s); dsolve.
+Qed.
+
+Lemma fire_streams c s : k_streams (fst (fire c s)) = k_streams s.
+Proof.
+  unfold fire. destruct (k_prev s <? k_last s); [reflexivity|]. destruct (k_out s && (k_left s <=? 0)); [reflexivity|].
+  destruct ((k_streams s <? 1) && negb (kc_permit c)); reflexivity.
+Qed.
+
+Lemma advance_dinv fuel c a : cfg_ok c -> forall s target, kinv c s -> dinv c s a -> k_now s <= target ->
+  dinv c (fst (advance fuel c s target)) a /\ k_streams (fst (advance fuel c s target)) = k_streams s.
+Proof.
+  intros C. induction fuel as [|f IH]; intros s target I D Hn; cbn [advance]; [cbn; auto|].
+  destruct (k_closed s || k_dorm s || (target <=? k_timer s)) eqn:E.
+  - cbn [fst]. split; [|reflexivity]. destruct D as [D1 D2 Da D3 D4 D5 D6 D6n D7].
+    constructor; cbn; auto; try lia; [intros H1 H2; specialize (D3 H1 H2); lia|intros H1; specialize (D6n H1); lia].
+  - apply orb_false_iff in E as [E E3]. apply orb_false_iff in E as [E1 E2].
+    pose proof (fire_inv c s C I E1 E2) as I1. pose proof (fire_dinv c s a C I D E1 E2) as D1.
+    pose proof (fire_streams c s) as S1.
+    destruct (fire_shape c s E1 E2) as [Hnow _]. destruct (i_timer _ _ I E1 E2) as [_ Hnt].
+    destruct (fire c s) as [s1 e1]. cbn [fst snd] in *.
+    assert (Hn1 : k_now s1 <= target) by (rewrite Hnow; destruct (Z.leb_spec target (k_timer s)); [discriminate|lia]).
+    specialize (IH s1 target I1 D1 Hn1). destruct (advance f c s1 target) as [s2 e2]. cbn [fst] in *.
+    destruct IH as [IH1 IH2]. split; [exact IH1|congruence].
+Qed.
+
+Ltac dsolve2 :=
+  constructor; cbn; intros; try discriminate;
+  repeat match goal with
+         | H : _ \/ _ |- _ => destruct H; try discriminate
+         | H : ?A -> _, H' : ?A |- _ => specialize (H H')
+         | H : ?A \/ ?B -> _, H' : ?A |- _ => specialize (H (or_introl H'))
+         | H : ?A \/ ?B -> _, H' : ?B |- _ => specialize (H (or_intror H'))
+         end; try lia; try (unfold applicable; cbn; assumption).
+
+Lemma a_next_bounds c s s' a : a <= k_now s' -> a <= a_next c s s' a <= k_now s'.
+Proof. intros H. unfold a_next. destruct (applicable c s' && negb (applicable c s)); lia. Qed.
+
+(* every action but a wake-up from dormancy keeps the invariant with the same a *)
+Lemma act_dinv_same c s o a : cfg_ok c -> kinv c s -> dinv c s a ->
+  (o = KOpen -> k_closed s = false -> k_drain s = false -> k_dorm s = true -> False) ->
+  dinv c (fst (act c s o)) a.
+Proof.
+  intros [Ct Co] I D NW. unfold act. destruct (k_closed s) eqn:Cl; [exact D|].
+  pose proof (i_str _ _ I) as St.
+  destruct D as [D1 D2 Da D3 D4 D5 D6 D6n D7]. unfold applicable in *.
+  destruct o; cbn [fst].
+  - constructor; auto.
+  - dsolve2.
+  - destruct (k_drain s) eqn:Dr; [constructor; auto|].
+    destruct (k_dorm s) eqn:Dm; [exfalso; apply NW; auto|]. dsolve2.
+  - destruct ((0 <? k_streams s) && negb (k_drain s && (k_streams s =? 1))) eqn:E;
+      [|constructor; auto].
+    apply andb_true_iff in E as [E _]. apply Z.ltb_lt in E. dsolve2.
+  - dsolve2.
+  - dsolve2.
+  - destruct (Z.leb_spec 1 (k_streams s)); [dsolve2|constructor; auto; cbn [fst]; unfold applicable; intros Hd; destruct (proj1 (orb_false_iff _ _) (D7 Hd)) as [Pm _]; rewrite Pm; destruct (Z.leb_spec 1 (k_streams s)); [lia|reflexivity]].
+Qed.
+
+(* the wake-up: keepalive becomes applicable now *)
+Lemma act_dinv_wake c s a : cfg_ok c -> kinv c s -> dinv c s a ->
+  k_closed s = false -> k_drain s = false -> k_dorm s = true ->
+  dinv c (fst (act c s KOpen)) (k_now s) /\ applicable c s = false /\ applicable c (fst (act c s KOpen)) = true /\
+  k_now (fst (act c s KOpen)) = k_now s.
+Proof.
+  intros [Ct Co] I D Cl Dr Dm. pose proof (i_str _ _ I) as St. destruct (i_dorm _ _ I Dm) as [Q1 Q2].
+  pose proof (i_left _ _ I) as L.
+  destruct D as [D1 D2 Da D3 D4 D5 D6 D6n D7]. specialize (D7 Dm).
+  assert (App : forall v, 0 <= v -> kc_permit c || (1 <=? v + 1) = true).
+  { intros v Hv. destruct (Z.leb_spec 1 (v + 1)); [apply orb_true_r|lia]. }
+  unfold act. rewrite Cl, Dr, Dm. unfold applicable in *.
+  destruct (Z.ltb_spec (k_prev s) (k_last s)) as [H|H].
+  - cbn [k_timer k_now].
+    destruct (Z.leb_spec (Z.max (k_now s) (k_last s + kc_time c)) (k_now s)) as [Hm|Hm].
+    + assert (Tm : Z.max (k_now s) (k_last s + kc_time c) = k_now s) by lia.
+      unfold fire. cbn [k_prev k_last k_out k_timer k_streams andb]. rewrite Z.ltb_irrefl.
+      destruct (Z.ltb_spec (k_streams s + 1) 1); [lia|]. cbn [andb]. unfold ping_and_sleep. cbn [k_out negb andb k_ack k_last k_prev k_left k_streams k_ping k_drain fst]. rewrite Tm.
+      split; [|cbn; auto]. destruct (k_ack s); dsolve2.
+    + cbn [fst]. split; [|cbn; auto]. dsolve2.
+  - unfold ping_and_sleep. cbn [fst k_out k_ack k_last k_prev k_left k_streams k_ping k_drain k_now]. rewrite Q2. cbn [negb andb].
+    split; [|cbn; auto]. destruct (k_ack s); dsolve2.
+Qed.
+
+Lemma act_streams_dorm s o : k_closed s = false ->
+  (o = KOpen /\ k_drain s = false /\ k_dorm s = true) \/
+  (o = KOpen -> k_closed s = false -> k_drain s = false -> k_dorm s = true -> False).
+Proof.
+  intros Cl. destruct o; try (right; intros; discriminate).
+  destruct (k_drain s) eqn:Dr; [right; intros; discriminate|]. destruct (k_dorm s) eqn:Dm; [left; auto|right; intros; discriminate].
+Qed.
+
+Lemma act_dinv c s o a : cfg_ok c -> kinv c s -> dinv c s a ->
+  dinv c (fst (act c s o)) (a_next c s (fst (act c s o)) a).
+Proof.
+  intros C I D. destruct (act_ok c s o C I) as (_ & Hn & Hc & _ & _). cbv zeta in Hn, Hc.
+  destruct (k_closed s) eqn:Cl.
+  - destruct (Hc eq_refl) as [E _]. rewrite E. unfold a_next. rewrite andb_negb_r. exact D.
+  - destruct (act_streams_dorm s o Cl) as [(-> & Dr & Dm)|NW].
+    + destruct (act_dinv_wake c s a C I D Cl Dr Dm) as (W & A1 & A2 & A3).
+      unfold a_next. rewrite A1, A2, A3. exact W.
+    + pose proof (act_dinv_same c s o a C I D NW) as W.
+      pose proof (a_next_bounds c s (fst (act c s o)) a) as B. rewrite Hn in B. specialize (B (d_a _ _ _ D)).
+      apply (dinv_mono c _ a); [lia|rewrite Hn; lia|exact W].
+Qed.
+
+Lemma kstep_dinv c s x o a : cfg_ok c -> 0 <= x -> kinv c s -> dinv c s a ->
+  dinv c (fst (kstep c s x o)) (a_next c s (fst (kstep c s x o)) a).
+Proof.
+  intros C Hx I D. unfold kstep.
+  destruct (advance_ok (fuel_for c (1000 * x + 1)) c C s (k_now s + (1000 * x + 1)) I ltac:(lia)) as (A1 & _ & _).
+  destruct (advance_dinv (fuel_for c (1000 * x + 1)) c a C s (k_now s + (1000 * x + 1)) I D ltac:(lia)) as (A2 & A3).
+  destruct (advance (fuel_for c (1000 * x + 1)) c s (k_now s + (1000 * x + 1))) as [s1 e1]. cbn [fst snd] in *.
+  pose proof (act_dinv c s1 o a C A1 A2) as B.
+  destruct (act c s1 o) as [s2 e2]. cbn [fst snd] in *.
+  unfold a_next in *. unfold applicable in *. rewrite A3 in B. exact B.
+Qed.
+
+Lemma dinv_reach c : cfg_ok c -> forall ops s a, xs_ok ops -> kinv c s -> dinv c s a ->
+  dinv c (kreach c s ops) (appl_from c s a ops).
+Proof.
+  intros C. induction ops as [|[x o] ops IH]; intros s a X I D; cbn [kreach appl_from]; [exact D|].
+  inversion X; subst. cbn [fst] in *. apply IH; auto.
+  - apply (kstep_ok c s x o C H1 I).
+  - apply kstep_dinv; auto.
+Qed.
+
+(* The dead-peer sentence of C15.  For EVERY timeline: let t0 be the instant of the last byte
+   received (k_last: the last KRead / GOAWAY / ping ack of the timeline) and a the moment
+   keepalive last became applicable (a stream open or PermitWithoutStream; 0 if from the start).
+   If keepalive is still applicable and the clock has passed max(t0 + Time, a) + Timeout, the
+   transport is closed, and it was closed (k_timer = the instant of the close) no later than
+   max(t0 + Time, a) + Timeout. *)
+Theorem dead_peer_closed c ops : cfg_ok c -> xs_ok ops ->
+  let s := kreach c (kinit c) ops in
+  let t0 := k_last s in
+  let a := appl_since c ops in
+  applicable c s = true ->
+  Z.max (t0 + kc_time c) a + kc_timeout c < k_now s ->
+  k_closed s = true /\ k_timer s <= Z.max (t0 + kc_time c) a + kc_timeout c /\
+  shows_close (krun c (kinit c) ops) = true.
+Proof.
+  intros C X s t0 a App Late.
+  cut (k_closed s = true /\ k_timer s <= Z.max (t0 + kc_time c) a + kc_timeout c).
+  { intros [H1 H2]. repeat split; auto. apply closed_shown; auto. }
+  pose proof C as [Ct Co].
+  pose proof (kinv_reach c ops C (kinit c) X (kinv_init c C)) as I.
+  pose proof (dinv_reach c C ops (kinit c) 0 X (kinv_init c C) (dinv_init c C)) as D.
+  fold s in I, D. fold (appl_since c ops) in D. fold a in D. subst t0.
+  destruct (k_closed s) eqn:Cl; [split; [reflexivity|apply (d_closed _ _ _ D Cl)]|]. exfalso.
+  destruct (k_dorm s) eqn:Dm; [rewrite (d_dorm _ _ _ D Dm) in App; discriminate|].
+  destruct (i_timer _ _ I Cl Dm) as [T1 T2]. pose proof (i_left _ _ I) as L.
+  destruct (k_out s) eqn:O.
+  - destruct (Z.ltb_spec (k_prev s) (k_last s)) as [H|H].
+    + pose proof (d_due _ _ _ D Cl Dm (or_intror H)). lia.
+    + pose proof (d_pinged _ _ _ D Cl Dm O H). destruct (i_out _ _ I O) as [_ P2]. lia.
+  - pose proof (d_due _ _ _ D Cl Dm (or_introl O)). lia.
+Qed.
+
+(* "a connection that receives some byte at least once every Time is never closed by keepalive":
+   at the end of EVERY timeline (hence at every op boundary of every timeline), a transport whose
+   last received byte is less than Time + Timeout old is not closed *)
+Theorem healthy_alive c ops : cfg_ok c -> xs_ok ops ->
+  let s := kreach c (kinit c) ops in
+  k_now s < k_last s + kc_time c + kc_timeout c -> k_closed s = false.
+Proof.
+  intros C X s H. destruct (k_closed s) eqn:Cl; [|reflexivity]. exfalso.
+  pose proof (healthy_never_killed c ops C X) as K. cbv zeta in K. fold s in K. destruct (K Cl) as [K1 _].
+  pose proof (dinv_reach c C ops (kinit c) 0 X (kinv_init c C) (dinv_init c C)) as D. fold s in D.
+  pose proof (d_closed_now _ _ _ D Cl). lia.
+Qed.
+
 (* ---- ledger ---- *)
 Definition pinv (s : pst) : Prop := p_goaway s = false -> 0 <= p_strikes s <= 2.
 
@@ -637,6 +866,96 @@ Proof.
   destruct (pstep_ok c s x o I) as [A B]. cbv zeta in A, B.
   destruct (pstep c s x o) as [s' ev] eqn:K. cbn [fst snd] in *. cbn [pclauses]. rewrite ?K. cbn [fst].
   rewrite forallb_app, B. apply IH, A.
+Qed.
+
+(* ---- the ledger over whole timelines ---- *)
+Fixpoint preach (c : pcfg) (s : pst) (ops : list (Z * pop)) : pst :=
+  match ops with [] => s | (x, o) :: r => preach c (fst (pstep c s x o)) r end.
+(* a client that respects the policy: every PING comes at least MinTime after the previous one
+   while it has streams (or PermitWithoutStream), at least two hours after it otherwise *)
+Fixpoint polite (c : pcfg) (s : pst) (ops : list (Z * pop)) : Prop :=
+  match ops with
+  | [] => True
+  | (x, o) :: r =>
+    (o = PPing -> p_lastping s < 0 \/ p_lastping s + policy_gap c s <= p_now s + 1000 * x + 1) /\
+    polite c (fst (pstep c s x o)) r
+  end.
+
+Lemma polite_ping c s : p_strikes s = 0 -> (p_lastping s < 0 \/ p_lastping s + policy_gap c s <= p_now s) ->
+  snd (on_ping c s) = [] /\ p_strikes (fst (on_ping c s)) = 0 /\ p_goaway (fst (on_ping c s)) = p_goaway s.
+Proof.
+  intros S H. unfold on_ping, policy_gap in *. destruct (p_reset s); [cbn; auto|].
+  assert (E : too_early (p_lastping s) (if (p_streams s <? 1) && negb (pc_permit c) then two_hours else pc_min c) (p_now s) = false).
+  { unfold too_early. destruct (Z.leb_spec 0 (p_lastping s)); [|reflexivity]. cbn [andb].
+    destruct H as [H|H]; [lia|]. destruct (Z.ltb_spec (p_now s) (p_lastping s + (if (p_streams s <? 1) && negb (pc_permit c) then two_hours else pc_min c))); [lia|reflexivity]. }
+  rewrite E, S. cbn. auto.
+Qed.
+
+(* "A server never sends GOAWAY ENHANCE_YOUR_CALM to a client whose consecutive pings are ..."
+   over whole timelines: with a polite client, whatever else happens (streams opened, finished,
+   waits), no GOAWAY is ever sent and no strike is ever recorded *)
+Theorem polite_never_goaway c ops : forall s, p_goaway s = false -> p_strikes s = 0 -> polite c s ops ->
+  p_goaway (preach c s ops) = false /\ p_strikes (preach c s ops) = 0 /\
+  Forall (fun ob => evs ob = []) (prun c s ops).
+Proof.
+  induction ops as [|[x o] ops IH]; intros s G S P; cbn [preach prun polite] in *; [auto|].
+  destruct P as [P1 P2].
+  assert (K : p_goaway (fst (pstep c s x o)) = false /\ p_strikes (fst (pstep c s x o)) = 0 /\ snd (pstep c s x o) = []).
+  { unfold pstep. rewrite G. destruct o; cbn [fst snd p_goaway p_strikes]; auto.
+    - set (s1 := mkp _ _ _ _ _ _).
+      destruct (polite_ping c s1) as (A & B & C0); [exact S|exact (P1 eq_refl)|]. rewrite C0. auto.
+    - cbn [p_streams p_now p_lastping p_strikes p_reset]. destruct (0 <? p_streams s); cbn [fst snd p_goaway p_strikes]; auto. }
+  destruct K as (K1 & K2 & K3). destruct (pstep c s x o) as [s' ev]. cbn [fst snd] in *. subst ev.
+  destruct (IH s' K1 K2 P2) as (A & B & C0). repeat split; auto.
+Qed.
+
+Lemma early_ping_step c s x : p_goaway s = false -> p_reset s = false -> 0 <= p_strikes s -> 0 <= p_lastping s ->
+  p_now s + 1000 * x + 1 < p_lastping s + policy_gap c s ->
+  pstep c s x PPing =
+  if p_strikes s <? 2
+  then (mkp (p_now s + 1000 * x + 1) (p_now s + 1000 * x + 1) (p_strikes s + 1) false (p_streams s) false, [])
+  else if p_strikes s =? 2
+  then (mkp (p_now s + 1000 * x + 1) (p_now s + 1000 * x + 1) 3 false (p_streams s) true, [(7, 11)])
+  else pstep c s x PPing.
+Proof.
+  intros G R S L H. destruct (Z.ltb_spec (p_strikes s) 2) as [S2|S2]; [|destruct (Z.eqb_spec (p_strikes s) 2) as [S3|S3]; [|reflexivity]].
+  - unfold pstep. rewrite G. unfold on_ping. cbn [p_reset p_now p_lastping p_strikes p_streams p_goaway]. rewrite R.
+    unfold policy_gap in H.
+    assert (E : too_early (p_lastping s) (if (p_streams s <? 1) && negb (pc_permit c) then two_hours else pc_min c) (p_now s + 1000 * x + 1) = true).
+    { unfold too_early. destruct (Z.leb_spec 0 (p_lastping s)); [|lia]. cbn [andb]. apply Z.ltb_lt. exact H. }
+    rewrite E. rewrite (u8_small (p_strikes s)) by lia. destruct (Z.ltb_spec 2 (p_strikes s + 1)); [lia|]. reflexivity.
+  - unfold pstep. rewrite G. unfold on_ping. cbn [p_reset p_now p_lastping p_strikes p_streams p_goaway]. rewrite R.
+    unfold policy_gap in H.
+    assert (E : too_early (p_lastping s) (if (p_streams s <? 1) && negb (pc_permit c) then two_hours else pc_min c) (p_now s + 1000 * x + 1) = true).
+    { unfold too_early. destruct (Z.leb_spec 0 (p_lastping s)); [|lia]. cbn [andb]. apply Z.ltb_lt. exact H. }
+    rewrite E, S3. cbn. reflexivity.
+Qed.
+
+(* "it does send it after a third too-early ping that is not separated from the previous ones by
+   server-sent headers or data": from any state without strikes, three pings in a row (nothing
+   but time between them), each too early for the policy: the first two are tolerated, the third
+   is answered by GOAWAY(ENHANCE_YOUR_CALM = 11) *)
+Theorem three_early_pings c s x1 x2 x3 :
+  p_goaway s = false -> p_reset s = false -> p_strikes s = 0 -> 0 <= p_lastping s <= p_now s ->
+  0 <= x1 -> 0 <= x2 -> 0 <= x3 ->
+  p_now s + 1000 * x1 + 1 < p_lastping s + policy_gap c s ->
+  1000 * x2 + 1 < policy_gap c s -> 1000 * x3 + 1 < policy_gap c s ->
+  exists t1 t2 t3, prun c s [(x1, PPing); (x2, PPing); (x3, PPing)] = [[t1]; [t2]; [t3; 7; 11]] /\
+                   p_goaway (preach c s [(x1, PPing); (x2, PPing); (x3, PPing)]) = true.
+Proof.
+  intros G R S L X1 X2 X3 H1 H2 H3.
+  pose proof (early_ping_step c s x1 G R ltac:(lia) ltac:(lia) H1) as E1. rewrite S in E1. cbn [Z.ltb Z.compare] in E1.
+  set (s1 := mkp (p_now s + 1000 * x1 + 1) (p_now s + 1000 * x1 + 1) (0 + 1) false (p_streams s) false) in E1.
+  assert (G1 : policy_gap c s1 = policy_gap c s) by reflexivity.
+  pose proof (early_ping_step c s1 x2 eq_refl eq_refl ltac:(unfold s1; cbn [p_strikes]; lia) ltac:(unfold s1; cbn [p_lastping]; lia) ltac:(rewrite G1; unfold s1; cbn [p_lastping p_now]; lia)) as E2.
+  cbn [p_strikes s1 Z.add Z.ltb Z.compare Pos.compare Pos.compare_cont p_now p_streams] in E2.
+  set (s2 := mkp (p_now s + 1000 * x1 + 1 + 1000 * x2 + 1) (p_now s + 1000 * x1 + 1 + 1000 * x2 + 1) 2 false (p_streams s) false) in E2.
+  change (pstep c s1 x2 PPing = (s2, [])) in E2.
+  assert (G2 : policy_gap c s2 = policy_gap c s) by reflexivity.
+  pose proof (early_ping_step c s2 x3 eq_refl eq_refl ltac:(unfold s2; cbn [p_strikes]; lia) ltac:(unfold s2; cbn [p_lastping]; lia) ltac:(rewrite G2; unfold s2; cbn [p_lastping p_now]; lia)) as E3.
+  cbn [p_strikes s2 Z.ltb Z.eqb Z.compare Pos.compare Pos.compare_cont Pos.eqb p_now p_streams] in E3.
+  do 3 eexists. cbn [prun preach]. rewrite E1. cbn [fst snd]. rewrite E2. cbn [fst snd]. rewrite E3. cbn [fst snd flat flat_map app p_now p_goaway].
+  split; reflexivity.
 Qed.
 
 Lemma decode_kop_x w x o : decode_kop w = Some (x, o) -> 0 <= x.
